@@ -52,7 +52,10 @@ VARIABLES
   inbox,       \* items delivered to the transport, not yet read by Serve
   script,      \* MC: items the peer will still send
   \* requests (Correlate.tla)
-  table, cancelled, outcome, claim, delivered,
+  table, cancelled, outcome,
+  rid,         \* id carried by the response the serve loop is working on
+  claim,       \* the requester it is offered to
+  delivered,   \* history: ids of the responses handed to each requester
   handled,     \* history: number of stanzas given to the handler
   deadline,    \* SetCloseDeadline was called
   \* a session whose negotiation failed, used all the same
@@ -62,10 +65,10 @@ VARIABLES
 nvars == <<role, result, ncur, estab>>
 ovars == <<prog, cur, lock, wire, rets, sv>>
 pvars == <<inbox, script>>
-cvars == <<table, cancelled, outcome, claim, delivered>>
+cvars == <<table, cancelled, outcome, rid, claim, delivered>>
 fvars == <<fserve, fdeliv>>
 vars  == <<role, bits, result, ncur, addr, estab, prog, cur, lock, wire, rets, sv, inbox, script,
-           table, cancelled, outcome, claim, delivered, handled, deadline, fserve, fdeliv>>
+           table, cancelled, outcome, rid, claim, delivered, handled, deadline, fserve, fdeliv>>
 
 NoCall == [k |-> "none", st |-> "none", wrote |-> 0]
 ItemKinds == {"stanza", "get", "herr", "resp", "close", "streamerr", "eof"}
@@ -89,7 +92,7 @@ Init ==
   /\ cur = [p \in Procs |-> NoCall] /\ lock = "free" /\ wire = <<>> /\ rets = [p \in Procs |-> <<>>]
   /\ sv = [phase |-> "idle", reason |-> "none", owner |-> "none", pending |-> 0]
   /\ inbox = <<>> /\ script \in PeerScripts
-  /\ table = {} /\ cancelled = {} /\ outcome = [i \in Reqs |-> None] /\ claim = None
+  /\ table = {} /\ cancelled = {} /\ outcome = [i \in Reqs |-> None] /\ claim = None /\ rid = None
   /\ delivered = [i \in Reqs |-> <<>>] /\ handled = 0 /\ deadline = FALSE
   /\ fserve = "no" /\ fdeliv = 0
 
@@ -143,7 +146,9 @@ BindAddr(f) == IF f = "bind" /\ role = "init" THEN [addr EXCEPT !.local = "full"
 (* Established .. Closed: the application's goroutines run.  Call protocol of        *)
 (* Output.tla: Begin -> Acquire -> body -> Return (lock released) -> Ret (observed). *)
 
-Est == result = "ok" \/ ("TxDuringNegotiation" \in Dev /\ result = "none")
+Est == \/ result = "ok"
+       \/ ("TxDuringNegotiation" \in Dev /\ result = "none")
+       \/ ("RunAfterFailure" \in Dev /\ result = "err")
 
 OutClosed == "OutClosed" \in bits
 InClosed  == "InClosed" \in bits
@@ -162,7 +167,7 @@ Register(i) ==
   /\ cur[i].k = "req" /\ cur[i].st = "new"
   /\ table' = table \cup {i}
   /\ cur' = [cur EXCEPT ![i].st = "entered"]
-  /\ UNCHANGED <<role, bits, nvars, addr, prog, lock, wire, rets, sv, pvars, cancelled, outcome, claim, delivered, handled, deadline, fvars>>
+  /\ UNCHANGED <<role, bits, nvars, addr, prog, lock, wire, rets, sv, pvars, cancelled, outcome, rid, claim, delivered, handled, deadline, fvars>>
 
 NeedsOutLock(k) == k \in {"tx", "req", "close", "senderr"}
 
@@ -255,10 +260,10 @@ SetDeadline(p) ==
 
 Cancel(i) ==
   /\ Est /\ i \notin cancelled /\ cancelled' = cancelled \cup {i}
-  /\ UNCHANGED <<role, bits, nvars, addr, ovars, pvars, table, outcome, claim, delivered, handled, deadline, fvars>>
+  /\ UNCHANGED <<role, bits, nvars, addr, ovars, pvars, table, outcome, rid, claim, delivered, handled, deadline, fvars>>
 
 CtxDone(i) ==
-  /\ cur[i].k = "wait" /\ cur[i].st = "waiting" /\ i \in cancelled
+  /\ cur[i].k = "wait" /\ cur[i].st = "waiting" /\ (i \in cancelled \/ "SpuriousCtxErr" \in Dev)
   /\ cur' = [cur EXCEPT ![i].st = "ctxerr"]
   /\ UNCHANGED <<role, bits, nvars, addr, prog, lock, wire, rets, sv, pvars, cvars, handled, deadline, fvars>>
 
@@ -267,7 +272,7 @@ Deregister(i) ==
   /\ table' = table \ {i}
   /\ outcome' = [outcome EXCEPT ![i] = CASE cur[i].st = "got" -> "reply" [] cur[i].st = "ctxerr" -> "ctxerr" [] OTHER -> "senderr"]
   /\ cur' = [cur EXCEPT ![i] = IF cur[i].st = "got" THEN [k |-> "wait", st |-> "reading", wrote |-> 0] ELSE NoCall]
-  /\ UNCHANGED <<role, bits, nvars, addr, prog, lock, wire, rets, sv, pvars, cancelled, claim, delivered, handled, deadline, fvars>>
+  /\ UNCHANGED <<role, bits, nvars, addr, prog, lock, wire, rets, sv, pvars, cancelled, rid, claim, delivered, handled, deadline, fvars>>
 
 CloseResp(i) ==
   /\ cur[i].k = "wait" /\ cur[i].st = "reading"
@@ -302,35 +307,36 @@ ServeItem(p) ==
   /\ sv.phase = "reading" /\ Idle(p) /\ inbox # <<>>
   /\ LET it == Head(inbox) IN
      /\ inbox' = Tail(inbox) /\ UNCHANGED script
-     /\ CASE it.t = "stanza" -> handled' = handled + 1 /\ UNCHANGED <<prog, sv, claim>>
-          [] it.t = "get" -> /\ handled' = handled + 1 /\ UNCHANGED claim
+     /\ CASE it.t = "stanza" -> handled' = handled + 1 /\ UNCHANGED <<prog, sv, rid>>
+          [] it.t = "get" -> /\ handled' = handled + 1 /\ UNCHANGED rid
                              /\ prog' = [prog EXCEPT ![p] = <<"tx">> \o @] /\ sv' = [sv EXCEPT !.pending = 1]
-          [] it.t = "herr" -> /\ handled' = handled + 1 /\ UNCHANGED claim
+          [] it.t = "herr" -> /\ handled' = handled + 1 /\ UNCHANGED rid
                               /\ Shutdown(p, <<"senderr", "closeinput", "close">>, "herr")
-          [] it.t = "resp" -> /\ sv' = [sv EXCEPT !.phase = "lookup"] /\ claim' = it.id
+          [] it.t = "resp" -> /\ sv' = [sv EXCEPT !.phase = "lookup"] /\ rid' = it.id
                               /\ UNCHANGED <<prog, handled>>
           [] it.t = "streamerr" -> /\ Shutdown(p, <<"senderr", "closeinput", "close">>, "streamerr")
-                                   /\ UNCHANGED <<handled, claim>>
-          [] it.t = "close" -> Shutdown(p, <<"closeinput", "close">>, "peerclose") /\ UNCHANGED <<handled, claim>>
+                                   /\ UNCHANGED <<handled, rid>>
+          [] it.t = "close" -> Shutdown(p, <<"closeinput", "close">>, "peerclose") /\ UNCHANGED <<handled, rid>>
           [] it.t = "eof" ->      \* raw end of the byte stream: the property is silent; either path
                /\ \/ Shutdown(p, <<"closeinput", "close">>, "eof")
                   \/ Shutdown(p, <<"senderr", "closeinput", "close">>, "eof")
-               /\ UNCHANGED <<handled, claim>>
-  /\ UNCHANGED <<role, bits, nvars, addr, cur, lock, wire, rets, table, cancelled, outcome, delivered, deadline, fvars>>
+               /\ UNCHANGED <<handled, rid>>
+  /\ UNCHANGED <<role, bits, nvars, addr, cur, lock, wire, rets, table, cancelled, outcome, claim, delivered, deadline, fvars>>
 
 (* the response branch of handleInputStream *)
 Lookup ==
   /\ sv.phase = "lookup"
-  /\ IF claim \in table THEN sv' = [sv EXCEPT !.phase = "offer"] /\ UNCHANGED claim
-                        ELSE sv' = [sv EXCEPT !.phase = "tohandler"] /\ claim' = None
-  /\ UNCHANGED <<role, bits, nvars, addr, prog, cur, lock, wire, rets, pvars, table, cancelled, outcome, delivered, handled, deadline, fvars>>
+  /\ \/ /\ rid \in table /\ claim' = rid /\ sv' = [sv EXCEPT !.phase = "offer"]
+     \/ /\ rid \notin table /\ claim' = None /\ sv' = [sv EXCEPT !.phase = "tohandler"]
+     \/ /\ "LookupIgnoresId" \in Dev /\ claim' \in table /\ sv' = [sv EXCEPT !.phase = "offer"]
+  /\ UNCHANGED <<role, bits, nvars, addr, prog, cur, lock, wire, rets, pvars, table, cancelled, outcome, rid, delivered, handled, deadline, fvars>>
 
 Handoff ==
   /\ sv.phase = "offer" /\ cur[claim].k = "wait" /\ cur[claim].st = "waiting"
   /\ sv' = [sv EXCEPT !.phase = "handed"]
   /\ cur' = [cur EXCEPT ![claim].st = "got"]
-  /\ delivered' = [delivered EXCEPT ![claim] = Append(@, claim)]
-  /\ UNCHANGED <<role, bits, nvars, addr, prog, lock, wire, rets, pvars, table, cancelled, outcome, claim, handled, deadline, fvars>>
+  /\ delivered' = [delivered EXCEPT ![claim] = Append(@, rid)]
+  /\ UNCHANGED <<role, bits, nvars, addr, prog, lock, wire, rets, pvars, table, cancelled, outcome, rid, claim, handled, deadline, fvars>>
 
 (* nobody waits for this response any more (context cancelled, or the requester has    *)
 (* left): it goes to the handler like any response nobody asked for                    *)
@@ -338,7 +344,7 @@ Skip ==
   /\ sv.phase = "offer" /\ (claim \in cancelled \/ claim \notin table)
   /\ "StallOnGoneRequester" \notin Dev
   /\ sv' = [sv EXCEPT !.phase = "tohandler"] /\ claim' = None
-  /\ UNCHANGED <<role, bits, nvars, addr, prog, cur, lock, wire, rets, pvars, table, cancelled, outcome, delivered, handled, deadline, fvars>>
+  /\ UNCHANGED <<role, bits, nvars, addr, prog, cur, lock, wire, rets, pvars, table, cancelled, outcome, rid, delivered, handled, deadline, fvars>>
 
 Handle ==
   /\ sv.phase = "tohandler"
@@ -348,8 +354,10 @@ Handle ==
 AwaitClose ==
   /\ sv.phase = "handed" /\ cur[claim].k = "wait" /\ cur[claim].st = "closed"
   /\ sv' = [sv EXCEPT !.phase = "reading"] /\ claim' = None
-  /\ cur' = [cur EXCEPT ![claim] = NoCall]
-  /\ UNCHANGED <<role, bits, nvars, addr, prog, lock, wire, rets, pvars, table, cancelled, outcome, delivered, handled, deadline, fvars>>
+  /\ IF "DoubleDelivery" \in Dev
+     THEN cur' = [cur EXCEPT ![claim].st = "waiting"] /\ table' = table \cup {claim}
+     ELSE cur' = [cur EXCEPT ![claim] = NoCall] /\ UNCHANGED table
+  /\ UNCHANGED <<role, bits, nvars, addr, prog, lock, wire, rets, pvars, cancelled, outcome, rid, delivered, handled, deadline, fvars>>
 
 ServeAbort(p) ==
   /\ sv.phase = "reading" /\ Idle(p)
@@ -514,7 +522,7 @@ FairSpec == Spec /\ Fair
 (* handler count hidden, the established / closing part implements Output.tla:          *)
 (* requests are transmit calls, responses handed to a requester are plain stanzas, the  *)
 (* extra control points of the serve loop are "reading", calls that do not touch the     *)
-(* output side (UpdateAddr) vanish.                                                      *)
+(* output side (UpdateAddr) vanish, SetCloseDeadline is Output's Deadline event.         *)
 
 MapSeq(F(_), s) == [i \in 1..Len(s) |-> F(s[i])]
 OCallKind(k) == IF k = "req" THEN "tx" ELSE k
@@ -533,7 +541,7 @@ O == INSTANCE Output WITH
        prog <- [p \in Procs |-> OProg(prog[p])], cur <- [p \in Procs |-> OCur(cur[p])], lock <- lock,
        outClosed <- OutClosed, inClosed <- InClosed, wire <- wire,
        rets <- [p \in Procs |-> ORets(rets[p])],
-       peer <- MapSeq(OItem, inbox \o script), avail <- Len(inbox), failArmed <- FALSE, sv <- OSv
+       peer <- MapSeq(OItem, inbox \o script), avail <- Len(inbox), failArmed <- FALSE, dl <- deadline, sv <- OSv
 
 OutputSpec == O!Spec
 (* Output.tla's invariants on the mapped variables (implied by OutputSpec; checked on   *)
